@@ -358,11 +358,12 @@ Definition dealer_send (route : outcome) (hwm : nat) (s : timeo) (pend : nat) (w
   end.
 
 (* DealerSocketOutgoingProcessor::run (dealer_socket.rs): after a wake-up it pops the front of
-   pending_outgoing_queue and calls route_message(msg, false):
+   pending_outgoing_queue, keeps a clone, and calls route_message(msg, false):
      Ok(()) => {}                                   handed to a peer's pipe
-     Err((returned, _)) => push_front(returned)     WHATEVER the error: for Timeout / ConnectionClosed
-                                                    `returned` is FrameBatch::new(), the message itself
-                                                    was consumed by the blocking send that failed
+     Err((returned, _)) => push_front(if returned.is_empty() { clone } else { returned })
+   (for Timeout / ConnectionClosed `returned` is FrameBatch::new(): the frames went down with the blocking
+   send that failed; before the fix: commit the EMPTY batch was pushed back and the message was lost -
+   QEmpty is kept in the type to state that)
    Result: (queue afterwards, handed over?). *)
 Inductive qitem (M : Type) := QMsg (m : M) | QEmpty.
 Global Arguments QMsg {M} m.
@@ -370,8 +371,7 @@ Global Arguments QEmpty {M}.
 Definition proc_route {M : Type} (route : outcome) (m : M) (rest : list (qitem M)) : list (qitem M) * bool :=
   match route with
   | Ret AOk _ _ => (rest, true)
-  | Ret _ _ Returned => (QMsg m :: rest, false)
-  | Ret _ _ _ => (QEmpty :: rest, false)
+  | Ret _ _ _ => (QMsg m :: rest, false)
   | Hang => (rest, false)                   (* still held by the suspended route_message *)
   end.
 (* is message m still somewhere: handed over, back in the queue, or held by the suspended call *)
